@@ -241,21 +241,31 @@ def execute(plan):
         ev = list(seam.events)
 
         def kind_of(e):
-            if len(e.var_shapes) != 1:
+            """'X', 'P' (loop, parameterised by X), 'Pfull' (no parameter) or None (cannot
+            tell - never guessed)."""
+            if len(e.var_shapes) != 1 or len(e.var_shapes[0]) != 2:
                 return None
             sh = tuple(e.var_shapes[0])
-            if sh == (n_layers, n_src):
+            ps = tuple(e.param_sizes)
+            is_x = sh == (n_layers, n_src) and len(ps) == 1 and ps[0] % n_layers == 0 \
+                and ps[0] != n_layers * n_src
+            is_p = sh[1] == n_layers and ps == (n_layers * n_src,) and sh != (n_layers, n_src)
+            if sh == (n_layers, n_src) and ps == (n_layers * n_src,):
+                return None                      # rows == layers == sources: undecidable
+            if is_x:
                 return "X"
-            if len(sh) == 2 and sh[1] == n_layers:
+            if is_p:
                 return "P"
+            if sh[1] == n_layers and ps == ():
+                return "Pfull"
             return None
 
         kinds_ = [kind_of(e) for e in ev]
         rows0 = next((e.var_shapes[0][0] for e, k in zip(ev, kinds_) if k == "P"), None)
-        ambiguous = (n_layers == n_src) and rows0 == n_layers
-        chain = [(k, e.value) for e, k in zip(ev, kinds_)
-                 if e.value is not None and (k == "X" or (k == "P" and e.var_shapes[0][0] == rows0))]
-        if ambiguous or len(chain) < 2:
+        chain = [(k[0], e.value) for e, k in zip(ev, kinds_)
+                 if e.value is not None and k is not None
+                 and (k == "X" or e.var_shapes[0][0] == rows0)]
+        if any(k is None for k in kinds_) or len(chain) < 2:
             bump("trajectory_not_classified")
             chain = []
         iters_run = sum(1 for k, _ in chain if k == "P")
